@@ -43,13 +43,14 @@ def pres? (t : String) : Option (List Pre) :=
 def via? (t : String) : Option Via :=
   match t.splitOn ":" with
   | ["d"] => some .direct | ["n"] => some .construct | ["b"] => some .bound | ["i"] => some .implicit
-  | ["N"] => some .nativeOnly | ["v", n] => some (.viaNative n) | _ => none
+  | ["N"] => some .nativeOnly | ["v", n] => some (.viaNative n)
+  | ["ed"] => some .evalDirect | ["ei"] => some .evalIndirect | _ => none
 
 def level? (t : String) : Option Level :=
   match t.splitOn "," with
-  | [v, f, n, o, p] => do
-    let v ← via? v; let f ← form? f; let o ← int? o; let p ← pres? p
-    pure { via := v, form := f, name := name? n, off := o, pre := p }
+  | [v, f, n, o, p, fl] => do
+    let v ← via? v; let f ← form? f; let o ← int? o; let p ← pres? p; let fl ← fl.toNat?
+    pure { via := v, form := f, name := name? n, off := o, pre := p, file := fl }
   | _ => none
 
 def levels? (t : String) : Option (List Level) :=
@@ -86,8 +87,8 @@ def caughtOut (c : Caught) : String := c.name ++ "," ++ "+".intercalate c.instan
 def join (ds : List String) : String := if ds.isEmpty then "-" else ",".intercalate ds
 
 /-- deviation regions of a trace request: decidable predicates over the request only -/
-def traceDev (src : Src) (sc : Scenario) (k : ErrKind) : String :=
-  join (Spec.traceDevs src sc ++ (if (errTable k).2 then [] else ["msg_empty"]))
+def traceDev (files : List FileEnt) (sc : Scenario) (k : ErrKind) : String :=
+  join (Spec.traceDevs files sc ++ (if (errTable k).2 then [] else ["msg_empty"]))
 
 def strOut (s : String) : String := "s:" ++ bytesOut (s.toUTF8.toList.map (·.toNat))
 def str? (t : String) : Option String :=
@@ -120,14 +121,15 @@ def handle (ws : List String) : String :=
       else "bad-op"
     | _, _ => "bad-op"
   | ["trace", lim, fname, s, ls, pre, r, k] =>
-    match int? lim, src? s, levels? ls, pres? pre, raise? r, kind? k, str? fname with
-    | some limit, some src, some levels, some pre, some raise, some kind, some fname =>
+    -- s = hex sources joined by `/`: the program, then the fixed pre-statement eval source "1", then eval-level sources
+    match int? lim, (s.splitOn "/").mapM src?, levels? ls, pres? pre, raise? r, kind? k, str? fname with
+    | some limit, some (src :: more), some levels, some pre, some raise, some kind, some fname =>
       let sc : Scenario := { levels := levels, pre := pre, raise := raise }
-      let files : List FileEnt := [{ name := fname, src := src }, { name := "", src := [0x31] }]
+      let files : List FileEnt := { name := fname, src := src } :: more.map (fun s => { name := "", src := s })
       let (mn, mm) := errTable kind
       let m := mn ++ "|" ++ flag mm ++ "|" ++ framesOut (trace files limit sc)
-      let sp := Spec.errClass kind ++ "|" ++ flag true ++ "|" ++ framesOut (Spec.trace fname src limit sc)
-      reply m sp (traceDev src sc kind)
+      let sp := Spec.errClass kind ++ "|" ++ flag true ++ "|" ++ framesOut (Spec.trace files limit sc)
+      reply m sp (traceDev files sc kind)
     | _, _, _, _, _, _, _ => "bad-op"
   | ["cls", k, _variant] => match kind? k with
     | some kind => reply (caughtOut (caught kind)) (caughtOut (Spec.caught kind)) (if (errTable kind).2 then "-" else "msg_empty")
